@@ -309,6 +309,14 @@ type OptSpec struct {
 	SimpleCache      bool     `json:"simple_cache,omitempty"`
 	OnInvalidations  bool     `json:"on_invalidations,omitempty"`
 	Procs            int      `json:"procs,omitempty"`
+	Username         string   `json:"username,omitempty"`
+	Password         string   `json:"password,omitempty"`
+	DynAuth          bool     `json:"dyn_auth,omitempty"` // credentials through AuthCredentialsFn
+	ClientName       string   `json:"client_name,omitempty"`
+	SelectDB         int      `json:"select_db,omitempty"`
+	NoTouch          bool     `json:"no_touch,omitempty"`
+	NoEvict          bool     `json:"no_evict,omitempty"`
+	SetInfo          []string `json:"set_info,omitempty"` // nil = library default; ["-"] = disabled; [name, ver]
 }
 
 type SchedSpec struct {
@@ -449,6 +457,21 @@ func (e *env) clientOption() ClientOption {
 	}
 	if opt.PipelineMultiplex == 0 {
 		opt.PipelineMultiplex = -1
+	}
+	opt.ClientName, opt.SelectDB, opt.ClientNoTouch, opt.ClientNoEvict = o.ClientName, o.SelectDB, o.NoTouch, o.NoEvict
+	if o.DynAuth {
+		user, pass := o.Username, o.Password
+		opt.AuthCredentialsFn = func(AuthCredentialsContext) (AuthCredentials, error) {
+			return AuthCredentials{Username: user, Password: pass}, nil
+		}
+	} else {
+		opt.Username, opt.Password = o.Username, o.Password
+	}
+	switch {
+	case len(o.SetInfo) == 1 && o.SetInfo[0] == "-":
+		opt.ClientSetInfo = DisableClientSetInfo
+	case len(o.SetInfo) == 2:
+		opt.ClientSetInfo = o.SetInfo
 	}
 	opt.Dialer.KeepAlive = time.Duration(o.KeepAliveMs) * time.Millisecond
 	opt.Dialer.Timeout = time.Duration(o.DialTimeoutMs) * time.Millisecond
